@@ -79,6 +79,24 @@ Theorem C03_deviate_kernel : forall (rs : rows) e m v,
   mkst3 (XF (e + sw rs)%Qc) (XF (np_merge_mean e m rs)) (XF (np_merge_vte e m v rs)).
 Proof. exact np_deviate_kernel. Qed.
 
+(* the counting kernels (np.histogram / np.bincount / np.unique(return_counts) fast paths of the
+   Count-valued binnings): a Count that receives a sub-column holds its initial entries plus the sum
+   of the weights > 0 of that sub-column - with unit weights, the number of its rows.  Together with
+   C03_columns_fixed / C03_columns_sparse: bin i (key k) of a Count-valued Bin, CentrallyBin,
+   SparselyBin or Categorize counts exactly the rows routed to it *)
+Theorem C03_count_kernel : forall (N : num_ops) tr q (st : leafstate N) (rows : list (datum N * T N)),
+  fst (fillnp (Leaf (LCount tr) q st) rows) =
+  Leaf (LCount tr) q {| le := fold_left (fun acc w => nadd acc (apply_trans tr w)) (counted rows) (le st);
+                        l1 := l1 st; l2 := l2 st; lv := lv st |}.
+Proof.
+  intros N tr q st rows. rewrite fillnp_content. unfold fills, counted. revert st.
+  induction rows as [|[d w] rows IH]; intro st; cbn [fold_left filter map snd fst].
+  - destruct st; reflexivity.
+  - unfold fill at 2. cbn [fillz]. destruct (pos w) eqn:P; cbn [negb fst snd filter map fold_left leaf_fill].
+    + rewrite IH. cbn [le l1 l2 lv]. reflexivity.
+    + rewrite IH. reflexivity.
+Qed.
+
 Print Assumptions C03_content.
 Print Assumptions C03_columns_fixed.
 Print Assumptions C03_columns_sparse.
@@ -88,3 +106,4 @@ Print Assumptions C03_deviate_kernel.
 Print Assumptions C03_split.
 Print Assumptions C03_zero_weights.
 Print Assumptions C03_merge.
+Print Assumptions C03_count_kernel.
